@@ -205,6 +205,54 @@ def run(chk):
            detail="an address term is printed directly after another one without a separator (e.g. `[rcx*8256]`): %s" % (fo.text(sep_viol[0])[:60] if sep_viol else ""),
            key="separator|x86::format_operand")
 
+    # ---------------------------------------------------------------- C20.d the hex column tiles the instruction bytes
+    R6 = "R-HEX-COLUMN-TILES"
+    chk.rule(R6, "finish_formatted_line: the bytes shown before and after the `..` placeholder tile the instruction - the first hex run starts "
+                 "at bin_data, the last one ends at bin_data + bin_size, and the run lengths plus the placeholder count add up to bin_size "
+                 "(linear forms over the parameters, locals replaced by their reaching definitions)")
+    from lib.linear import Sym, Lin
+    ffl_f = chk.facts(UE, funcs=r"EmitterUtils::finish_formatted_line$")
+    ffl = cfg.find_fn(ffl_f, "EmitterUtils::finish_formatted_line")
+    sym = Sym(ffl)
+    hexes = sorted([(i, x) for i, x in ffl.calls(lambda x: x.get("cn") == "append_hex" and len(x.get("args", [])) >= 2)], key=lambda t: (t[1]["l"], t[0]))
+    dots = [(i, x) for i, x in ffl.calls(lambda x: x.get("cn") == "append_chars" and len(x.get("args", [])) == 2 and "'.'" in ffl.text(x["args"][0]))]
+    chk.need(len(hexes) == 2 and len(dots) == 1, "finish_formatted_line: expected two append_hex calls around one placeholder run (found %d / %d)" % (len(hexes), len(dots)))
+    (h0, x0), (h1, x1) = hexes
+    p0, n0 = sym.lin(x0["args"][0], h0), sym.lin(x0["args"][1], h0)
+    p1, n1 = sym.lin(x1["args"][0], h1), sym.lin(x1["args"][1], h1)
+    k = sym.lin(dots[0][1]["args"][1], dots[0][0])
+    base, size = Lin(0, {"bin_data": 1}), Lin(0, {"bin_size": 1})
+    half_k = Lin(k.c // 2, {a: v // 2 for a, v in k.t.items()}) if k.c % 2 == 0 and all(v % 2 == 0 for v in k.t.values()) else None
+    chk.ob(R6, "first-run-starts-at-bin_data", p0.key() == base.key(), loc=ffl.loc(h0), detail="first hex run starts at %r" % p0)
+    chk.ob(R6, "last-run-ends-at-end", p1.add(n1).key() == base.add(size).key(), loc=ffl.loc(h1),
+           detail="the last hex run covers [%r, +%r) which does not end at bin_data + bin_size: the immediate bytes shown are not the instruction's last bytes" % (p1, n1),
+           key="hexcolumn|last-run")
+    chk.ob(R6, "lengths-add-up", half_k is not None and n0.add(half_k).add(n1).key() == size.key(), loc=ffl.loc(h0),
+           detail="run lengths %r + %r placeholders/2 + %r do not add up to bin_size" % (n0, k, n1), key="hexcolumn|sum")
+
+    # ---------------------------------------------------------------- C20.e a register is printed with its own type
+    R7 = "R-TYPE-ID-PAIR"
+    chk.rule(R7, "formatters: wherever a call receives `<x>_type()` and `<y>_id()` of the same memory operand, x == y (base with base, index with "
+                 "index): a register is never printed with the other register's size")
+    npair = 0
+    for unit in ("asmjit/arm/armformatter.cpp", "asmjit/x86/x86formatter.cpp", "asmjit/core/formatter.cpp"):
+        ff = chk.facts(unit, funcs=r"asmjit::[A-Za-z_0-9:]*(format|Format)[A-Za-z_0-9:]*$")
+        for fn in cfg.load_functions(ff):
+            for i, x in fn.calls():
+                kinds = {}
+                for a in x.get("args", []):
+                    y = fn.e(fn.strip(a))
+                    if y and y["k"] == "mcall" and y.get("obj") and re.match(r"^(base|index)_(type|id)$", y.get("cn") or ""):
+                        who, what = y["cn"].split("_")
+                        kinds.setdefault((fn.access_path(y["obj"]) or fn.text(y["obj"])), {})[what] = who
+                for obj, d in kinds.items():
+                    if "type" in d and "id" in d:
+                        npair += 1
+                        chk.ob(R7, "%s|%s(%s)#%d" % (fn.name.replace("asmjit::", ""), x.get("cn"), obj, npair), d["type"] == d["id"], loc=fn.loc(i),
+                               detail="`%s` pairs %s_type() with %s_id()" % (" ".join(fn.text(i).split())[:80], d["type"], d["id"]),
+                               key="typeidpair|%s|%d" % (fn.name.replace("asmjit::", ""), npair))
+    chk.floor(R7 + ":pairs", npair, 3)
+
     return chk.finish(
         level="other", exhaustive=False,
         explanation=("Name-table clauses of the formatters in /repo's current source: every x86 register name for every (type, id) equals the "
